@@ -27,3 +27,23 @@ Lemma extracted_methods_present :
    ("Python_RSAKey", "_rawPrivateKeyOp")]%string.
 Proof. reflexivity. Qed.
 
+
+(* Clock reads.  The sequential model (and the specification) stamp a stored entry and age a
+   looked-up entry with the clock value of the call's position in the history, i.e. at its
+   linearization point.  In the code this is true only if time.time() is called inside the
+   critical section: a stamp taken before the lock can be overtaken by a later stamp, the list is
+   then no longer ordered in time and _purge stops early (an expired session is returned).
+   to_shape maps XClock to a shared read, so method_ok already demands it; stated separately: *)
+Lemma extracted_clock_locked :
+  forallb (fun m : xmethod => let '(_, _, p) := m in clock_locked false p) all_methods = true.
+Proof. vm_compute. reflexivity. Qed.
+
+(* ... and each SessionCache call reads the clock exactly once (one clock value per call in the model) *)
+Lemma cache_clock_once :
+  count_clock SessionCache_getitem = 1%nat /\ count_clock SessionCache_setitem = 1%nat.
+Proof. split; vm_compute; reflexivity. Qed.
+
+Lemma extracted_clock_facts :
+  forallb (fun m : xmethod => let '(_, _, p) := m in clock_locked false p) all_methods = true /\
+  count_clock SessionCache_getitem = 1%nat /\ count_clock SessionCache_setitem = 1%nat.
+Proof. exact (conj extracted_clock_locked cache_clock_once). Qed.
